@@ -3,6 +3,9 @@
 S=/verif/seeded/$1; P=$2; T=${3:-quick}
 cd /repo && git diff --quiet || { echo "/repo not clean"; exit 3; }
 git -C /repo apply $S/patch.diff || exit 3
+cp /verif/evidence/$P.json /tmp/seed/ev-$P.bak 2>/dev/null
 cd /verif && timeout ${SEED_TIMEOUT:-1800} ./check $P --tier $T > /tmp/seed/run-$1-$P.log 2>&1; RC=$?
 git -C /repo checkout -- .
+[ -f /tmp/seed/ev-$P.bak ] && cp /tmp/seed/ev-$P.bak /verif/evidence/$P.json
+rm -rf /verif/replays/$P
 echo "seed=$1 check=$P tier=$T rc=$RC"; grep -E "^VIOLATION|^KNOWN|^OK|^INCONCLUSIVE" /tmp/seed/run-$1-$P.log | head -5
